@@ -149,6 +149,9 @@ typedef struct vf_case {
     int nontrivial;
     long counters[8];    /* free-form numeric observations summed by the driver */
     char notes[96];      /* "+note+note": context appended to leak keys and to death keys (see vf_note) */
+    int nmore;           /* further violations of the same case (distinct keys), reported alongside the first */
+    char more_key[3][200];
+    char more_msg[3][400];
 } vf_case;
 
 void vf_viol(vf_case *c, const char *key, const char *fmt, ...) __attribute__((format(printf, 3, 4)));
@@ -161,6 +164,11 @@ void vf_sig_u64(vf_case *c, uint64_t v);
 void vf_log(vf_case *c, const char *fmt, ...) __attribute__((format(printf, 2, 3)));   /* verbose only */
 /* end-of-case memory discipline: reports leak / bad free as violations of `prop`-specific key */
 void vf_check_ledger(vf_case *c, const char *where);
+/* same, with a context word that becomes part of the leak key: leak[ctx]@site (e.g. ctx = "nomem" right after an out-of-space return) */
+void vf_check_ledger_ctx(vf_case *c, const char *where, const char *ctx);
+/* mid-case variant: only blocks allocated after vf_ledger_mark() are considered (and released) */
+uint64_t vf_ledger_mark(void);
+void vf_check_ledger_since(vf_case *c, const char *where, const char *ctx, uint64_t mark);
 
 typedef void (*vf_case_fn)(vf_case *c);
 /* module registration: put VF_REGISTER("C01", c01_run) at file scope of the module */
